@@ -26,7 +26,7 @@ type Config struct {
 	Trace        bool
 	CSolver      string // solver for the concurrency query (z3 | z3new | cvc5)
 	CTimeoutS    int
-	CPar         int    // parallel solver processes for the concurrency query (violating leaves are split into groups)
+	CPar         int // parallel solver processes for the concurrency query (violating leaves are split into groups)
 }
 
 type decision struct {
@@ -91,43 +91,43 @@ type Exec struct {
 	journal      []func()
 
 	// per path
-	pc        []*Term
-	model     *Model
-	memo      map[int]uint64
-	dec       []decision
-	pos       int
-	symN      map[string]int
-	inputs    []*Term
-	steps     int
-	ivMemo    map[int]ival // ranges under the current bounds (dropped when a bound tightens)
-	noFold    bool
-	Folded    int
-	Summarised int // calls of time.absDate answered by the month-table summary
-	hangAt    int // VerifStepBound: step count at which the path counts as not terminating
-	depth     int
-	cur       *G
-	gs        []*G
-	curFrame  *frame
-	timers    []*timerObj
-	timerSeq  int
-	locks     map[Ptr]*lockState
-	wgs       map[Ptr]*int64
-	onces     map[Ptr]bool
-	smaps     map[Ptr]*Map
-	ptrAddr   map[Ptr]uint64
-	addrPtr   map[uint64]Ptr
-	ptrSeq    uint64
-	chanSeq   int
-	mapSeq    int
-	recovered int
-	nowN      int
-	lastNow   [2]*Term
-	pathDone  chan pathEnd
-	aborting  bool
-	wg        sync.WaitGroup
-	allocMax  int64
-	allocs    []int64
-	pathNotes []string
+	pc            []*Term
+	model         *Model
+	memo          map[int]uint64
+	dec           []decision
+	pos           int
+	symN          map[string]int
+	inputs        []*Term
+	steps         int
+	ivMemo        map[int]ival // ranges under the current bounds (dropped when a bound tightens)
+	noFold        bool
+	Folded        int
+	Summarised    int // calls of time.absDate answered by the month-table summary
+	hangAt        int // VerifStepBound: step count at which the path counts as not terminating
+	depth         int
+	cur           *G
+	gs            []*G
+	curFrame      *frame
+	timers        []*timerObj
+	timerSeq      int
+	locks         map[Ptr]*lockState
+	wgs           map[Ptr]*int64
+	onces         map[Ptr]bool
+	smaps         map[Ptr]*Map
+	ptrAddr       map[Ptr]uint64
+	addrPtr       map[uint64]Ptr
+	ptrSeq        uint64
+	chanSeq       int
+	mapSeq        int
+	recovered     int
+	nowN          int
+	lastNow       [2]*Term
+	pathDone      chan pathEnd
+	aborting      bool
+	wg            sync.WaitGroup
+	allocMax      int64
+	allocs        []int64
+	pathNotes     []string
 	wallMs        map[int]*Term
 	provided      map[string]Value
 	manualClock   *Term
@@ -213,6 +213,7 @@ func (x *Exec) noteFunc(fn *ssa.Function, intrinsic bool) {
 }
 func (x *Exec) noteRead(p Ptr)  {}
 func (x *Exec) noteWrite(p Ptr) {}
+
 var gcSizes = types.SizesFor("gc", "amd64")
 
 // elemSize is the size in bytes of one element of type t (1 if unknown).
